@@ -174,6 +174,41 @@ pub fn events_for_files(files: &[String], seed: u64) -> Vec<Value> {
 }
 
 /// vharness c11 --cases <ndjson> --trace <ndjson> [--files <list file>]
+/// Two revisions of one specification: the same templates (parameterized type, COMPONENTS OF, named numbers, value
+/// references, selection and class field types, an import) over a definition that differs.  Revision r compiled on a fresh
+/// thread must equal revision r compiled right after the other revision on the same thread.
+fn revision_text(family: usize, p: u64) -> Vec<String> {
+    let w = |b: String| vec![format!("Rev DEFINITIONS AUTOMATIC TAGS ::= BEGIN\n{b}\nEND\n")];
+    match family {
+        0 => w(format!("lim INTEGER ::= {p}\nTpl {{T}} ::= SEQUENCE {{ l SEQUENCE (SIZE (1..lim)) OF T, d INTEGER (0..lim) DEFAULT lim }}\nZinst ::= Tpl {{ BOOLEAN }}")),
+        1 => w(format!("Base ::= SEQUENCE {{ a INTEGER (0..{p}) }}\nZuser ::= SEQUENCE {{ COMPONENTS OF Base, z BOOLEAN }}")),
+        2 => w(format!("Level ::= INTEGER {{ low(0), high({p}) }}\nZr ::= Level (low..high)\nZs ::= SEQUENCE {{ f Level (low..high) DEFAULT high }}")),
+        3 => w(format!("lim INTEGER ::= {p}\nZc ::= SEQUENCE {{ f OCTET STRING (SIZE (1..lim)), g INTEGER (0..lim) OPTIONAL }}")),
+        4 => w(format!("Cho ::= CHOICE {{ a INTEGER (0..{p}), b BOOLEAN }}\nZs ::= a < Cho")),
+        5 => w(format!("CLS ::= CLASS {{ &id INTEGER (0..{p}) UNIQUE, &Type }}\nZf ::= SEQUENCE {{ f CLS.&id }}")),
+        6 => w(format!("Tpl {{INTEGER:max, T}} ::= SEQUENCE (SIZE (1..max)) OF T\nZinst ::= Tpl {{ {p}, BOOLEAN }}\nZz ::= SEQUENCE {{ m Zinst }}")),
+        _ => vec![format!("RevA DEFINITIONS AUTOMATIC TAGS ::= BEGIN\nIMPORTS lim FROM RevB;\nZt ::= INTEGER (0..lim)\nEND\n"),
+                  format!("RevB DEFINITIONS AUTOMATIC TAGS ::= BEGIN\nlim INTEGER ::= {p}\nEND\n")],
+    }
+}
+
+pub fn events_for_revisions() -> Vec<Value> {
+    let mut evs = vec![];
+    for family in 0..8 {
+        for (this, other) in [(9u64, 70000u64), (70000, 9), (300, 5)] {
+            let (a, b) = (revision_text(family, this), revision_text(family, other));
+            let defset = format!("revision family {family} with {this}");
+            let a1 = a.clone();
+            let fresh = std::thread::Builder::new().stack_size(64 << 20).spawn(move || { run::install_panic_hook(); compile(&a1) }).unwrap().join().unwrap();
+            let (a2, b2) = (a.clone(), b.clone());
+            let after = std::thread::Builder::new().stack_size(64 << 20).spawn(move || { run::install_panic_hook(); let _ = compile(&b2); compile(&a2) }).unwrap().join().unwrap();
+            evs.push(outcome_event(&defset, "on a fresh thread", &fresh, &a.join("\n")));
+            evs.push(outcome_event(&defset, &format!("after the revision with {other} on the same thread"), &after, ""));
+        }
+    }
+    evs
+}
+
 pub fn drive(args: &[String]) -> i32 {
     let cases = util::read_ndjson(util::arg(args, "--cases").expect("--cases"));
     let seed: u64 = std::env::var("VERIF_SEED").ok().and_then(|s| s.parse().ok()).unwrap_or(1);
@@ -190,6 +225,7 @@ pub fn drive(args: &[String]) -> i32 {
         });
         events.extend(chunks);
     }
+    events.extend(events_for_revisions());
     util::write_ndjson(util::arg(args, "--trace").expect("--trace"), &events);
     eprintln!("c11: {} module sets, {} events", indexed.len(), events.len());
     0
